@@ -1,4 +1,5 @@
 import Hms.Check.Check
+import Hms.Check.Compat
 /-!
 # C03 — the declarative typing relation (the specification)
 
@@ -18,13 +19,14 @@ known identifiers / types / members, `break` / `continue` only in loops, no dupl
 constant globals, no implicit `any`, shape of `main`. There is no error recovery, no
 diagnostic and no analyzer state here.
 
-The finite parts (operator admissibility, member tables, `as` conversions, structural
-compatibility `typeCheck`) are shared with the checker as tables.
+The finite parts (operator admissibility, member tables, `as` conversions) are shared with the
+checker as tables; structural compatibility is the relation `Compatible` of
+`Hms/Check/Compat.lean` (proved equivalent to the checker's `typeCheck`).
 -/
 namespace Hms.Check
 
-/-- structural compatibility (`TypeCheck`) holds -/
-abbrev Compat (allowFn : Bool) (got exp : Ty) : Prop := typeCheck allowFn got exp = none
+/-- structural compatibility: a `got` may stand where an `exp` is expected -/
+abbrev Compat (allowFn : Bool) (got exp : Ty) : Prop := Compatible allowFn got exp
 
 /-- `let` without annotation needs an `any`-free initialiser; with annotation the initialiser
 must be compatible with it (function values only if no `any` is involved) -/
